@@ -85,15 +85,12 @@ theorem sim_builtin (cfg : Cfg) (f : Fn) (s e : Nat) (args : List Numeric) (d : 
   exact ⟨rfl, rfl⟩
 
 /-- The evaluator's dispatch on the name of the function. -/
-theorem dispatch_name (cfg : Cfg) (f : Fn) (s e : Nat) (args : List Numeric) :
+theorem dispatch_name (cfg : Cfg) (f : Fn) (s e : Nat) (args : List Numeric)
+    (other : EvalM Numeric) :
     (if String.ofList f.name == "round" then builtinRound cfg s e args
       else if String.ofList f.name == "floor" then builtinFloor s e args
       else if String.ofList f.name == "ceil" then builtinCeil s e args
-      else if (String.ofList f.name == "sin" || String.ofList f.name == "cos") then
-        (match args with
-          | [_] => EvalM.throw (.unsupported "sin/cos go through f64")
-          | _ => err .argumentMismatch s e)
-      else err .missingFunction s e) = builtinAt cfg f s e args := by
+      else other) = builtinAt cfg f s e args := by
   cases f <;> simp [Fn.name, builtinAt]
 
 /-! ### Scope and errors along a chain -/
@@ -220,12 +217,12 @@ theorem simD_err {y : EvalErr} {d' : List Desc} {res : Except EvalErr Delayed ×
   exact ⟨rfl, rfl⟩
 
 /-- From the outcome of the operator loop to the outcome of the OPERATION node. -/
-theorem sim_of_simD (cfg : Cfg) (G : Nat) {res : Except EvalErr Delayed × List Desc}
-    {res' : Except EvalErr Numeric × List Desc} (h : SimD res res') :
-    Sim (match res with
-      | (.ok a, d') => force cfg G a d'
-      | (.error x, d') => (.error x, d')) res' := by
-  obtain ⟨rf, d3⟩ := res
+theorem sim_of_simD (cfg : Cfg) (G : Nat) {m : EvalM Delayed} {d : List Desc}
+    {res' : Except EvalErr Numeric × List Desc} (h : SimD (m d) res') :
+    Sim ((m >>= fun a => force cfg G a) d) res' := by
+  simp only [C06.bind_apply]
+  rcases hm : m d with ⟨rf, d3⟩
+  rw [hm] at h
   obtain ⟨rf', d3'⟩ := res'
   obtain ⟨hd3, hm⟩ := h
   simp only at hd3 hm
@@ -324,5 +321,222 @@ theorem fold_sim (cfg : Cfg) (N : Nat) (ih : ∀ f, f ≤ N → EvalOKU cfg f)
       · rw [heq]
         exact ihf hp' rest' F' w node d' d₀ h3 (by omega) (hacc'.trans hw) (by omega) hl
       · exact simD_err heq (foldU_evalF_err cfg htail hp' d₀ d' _ (hacc'.trans hy))
+
+/-- `eval` on a NUMBER node spelling a literal without percent sign. -/
+theorem eval_number (cfg : Cfg) (G : Nat) (a : At) (l : Literal) (d : List Desc)
+    (hk : a.t.kind = .NUMBER) (ht : a.t.text = renderNumber l) (hl : LitOK l)
+    (hp : l.percent = false) : eval cfg (G + 1) a d = (.ok (plain (value l)), d) := by
+  simp only [eval, hk, ht, fromStr_lit l hl, value_percent_false l hp]
+  rfl
+
+/-- `eval` on an FN_CALL node whose name is a builtin's. -/
+theorem eval_fnCall (cfg : Cfg) (G : Nat) (a nma arga : At) (morea : List At) (f : Fn)
+    (hk : a.t.kind = .FN_CALL)
+    (hLeq : a.kids.filter (fun k => k.t.hasChildren) = nma :: arga :: morea)
+    (hk1 : nma.t.kind = .FN_NAME) (hk2 : arga.t.kind = .FN_ARGUMENTS)
+    (hnt : nma.t.text = f.name) :
+    eval cfg (G + 1) a =
+      (evalArgs cfg G (arga.kids.filter (fun k => k.t.hasChildren)) >>= fun args =>
+        builtinAt cfg f a.off a.stop args) := by
+  have h1 : (nma.t.kind != Syntax.FN_NAME) = false := by rw [hk1]; rfl
+  have h2 : (arga.t.kind != Syntax.FN_ARGUMENTS) = false := by rw [hk2]; rfl
+  rw [eval]
+  simp only [hk, hLeq, h1, h2, Bool.false_eq_true, ↓reduceIte, hnt, dispatch_name]
+
+theorem evalOKU_all (cfg : Cfg) : ∀ f, EvalOKU cfg f := by
+  intro f
+  induction f using Nat.strong_induction_on with
+  | _ f ih =>
+    intro t e off d hsz hrep hl
+    have hpos := C06.size_pos t
+    obtain ⟨F, rfl⟩ : ∃ F, f = F + 1 := ⟨f - 1, by omega⟩
+    have ih' : ∀ g, g ≤ F → EvalOKU cfg g := fun g hg => ih g (by omega)
+    cases hrep with
+    | @num _ l hk hc hp ht =>
+      rw [eval_number cfg F ⟨off, t⟩ l d hk ht hl hp]
+      exact ⟨rfl, rfl⟩
+    | @pct id n ks l hk ht hp =>
+      simp only [eval, At.kids, kids_node, kind_node, kidsAt, hk, ht, fromStr_lit l hl, evalF,
+        value_percent_true l hp]
+      exact ⟨by simp [pure, strip, plain], rfl⟩
+    | @qty id v un rest more l u hk ht hp hop hun =>
+      obtain ⟨hlit, huo⟩ := hl
+      have hL : ((kidsAt (off + v.len) rest).filter (fun k => k.t.hasChildren)).map (·.t) =
+          opKids rest := by rw [filter_kids_map, kidsAt_map]
+      rw [hop] at hL
+      obtain ⟨ua, morea, hLeq, hua, _⟩ := map_eq_cons hL
+      obtain ⟨tl, hnn⟩ := nextNode_of_filter hLeq
+      have hT := unit_unitC ua u (hua ▸ hun) huo d
+      simp only [At.kids] at hT
+      have hkind : (ua.t.kind != Syntax.UNIT) = false := by rw [hua, hun.1]; rfl
+      have hs1 := opKids_size_le rest
+      simp only [hop, sizeList, size_node] at hs1 hsz
+      have pv := C06.size_pos v
+      have pu := C06.size_pos un
+      obtain ⟨F', rfl⟩ : ∃ F', F = F' + 1 := ⟨F - 1, by omega⟩
+      have hval := eval_number cfg F' ⟨off, v⟩ l d hk ht hlit hp
+      rw [eval]
+      simp only [kind_node, At.kids, kids_node, kidsAt, hnn, hkind, Bool.false_eq_true,
+        ↓reduceIte, C06.bind_apply, hval, hT, pure, evalF]
+      exact ⟨rfl, rfl⟩
+    | @fact _ p v u hk hc ht =>
+      have hev : eval cfg (F + 1) ⟨off, t⟩ = lookup cfg ⟨off, t⟩ := by
+        by_cases hm : factMore p = []
+        · simp only [hm, ↓reduceIte] at hk; simp only [eval, hk]
+        · simp only [hm, ↓reduceIte] at hk; simp only [eval, hk]
+      rw [hev]
+      have := sim_lookup cfg ⟨off, t⟩ d
+      simp only [ht] at this
+      simpa only [evalF] using this
+    | @paren id ks x e' hop hx =>
+      have hL := at_opKids ⟨off, .node id .OPERATION ks⟩
+      simp only [kids_node, hop] at hL
+      obtain ⟨xa, hLeq, hxa⟩ := map_eq_one hL
+      have hs1 := opKids_size_le ks
+      simp only [hop, sizeList, size_node] at hs1 hsz
+      obtain ⟨F', rfl⟩ : ∃ F', F = F' + 1 := ⟨F - 1, by omega⟩
+      simp only [eval, kind_node, hLeq, opFold, C06.bind_apply, pure, force]
+      have := ih' F' (by omega) x e' xa.off d (by omega) hx hl
+      rw [← hxa, at_eta] at this
+      simpa only [evalF] using this
+    | @chain id ks x₀ rest0 e₀ _ p hop hne hx0 hp0 hfold0 =>
+      have hL := at_opKids ⟨off, .node id .OPERATION ks⟩
+      simp only [kids_node, hop] at hL
+      obtain ⟨x0a, L1, hLeq, hx0a, hL1⟩ := map_eq_cons hL
+      have hs1 := opKids_size_le ks
+      simp only [hop, sizeList, size_node] at hs1 hsz
+      have p0 := C06.size_pos x₀
+      have hl0 := foldU_inScope hfold0 hl
+      have hbase : ∀ G, G ≤ F → 2 * size x₀ + 1 ≤ G → ∀ d1,
+          Sim (force cfg G (.node x0a) d1) (evalF cfg e₀ d1) := by
+        intro G hG hGs d1
+        obtain ⟨G', rfl⟩ : ∃ G', G = G' + 1 := ⟨G - 1, by omega⟩
+        rw [C06.force_node]
+        have := ih' G' (by omega) x₀ e₀ x0a.off d1 (by omega) hx0 hl0
+        rwa [← hx0a, at_eta] at this
+      have key : SimD (opFold cfg F ⟨off, .node id .OPERATION ks⟩ (.node x0a) L1 d)
+          (evalF cfg e d) := by
+        cases hfold0 with
+        | nil => exact absurd rfl hne
+        | @cons _ _ o x₁ op b _ rest ho hopp hx1 htail =>
+          obtain ⟨oa, L2, rfl, hoa, hL2⟩ := map_eq_cons hL1
+          obtain ⟨x1a, resta, rfl, hx1a, hresta⟩ := map_eq_cons hL2
+          simp only [sizeList] at hs1 hsz
+          have p1 := C06.size_pos x₁
+          have p2 := C06.size_pos o
+          obtain ⟨F', rfl⟩ : ∃ F', F = F' + 1 := ⟨F - 1, by omega⟩
+          have hlb := foldU_inScope htail hl
+          have hxo := ih' F' (by omega) x₁ b x1a.off d (by omega) hx1 hlb.2
+          rw [← hx1a, at_eta] at hxo
+          have hacc' : evalF cfg (.bin op e₀ b) =
+              (evalF cfg b >>= fun vb => evalF cfg e₀ >>= fun va => binEval cfg op 0 0 va vb) :=
+            evalF_bin_other cfg op e₀ b (by rw [hopp]; exact hp0)
+          have hp' : qprioF (.bin op e₀ b) = p := hopp
+          rcases step_bin cfg F' ⟨off, .node id .OPERATION ks⟩ (.node x0a) oa x1a resta op
+            (evalF cfg b) (evalF cfg e₀) d (hoa ▸ ho) hxo (hbase F' (by omega) (by omega)) with
+            ⟨w, d', hw, heq⟩ | ⟨y, d', hy, heq⟩
+          · rw [heq]
+            exact fold_sim cfg (F' + 1) ih' htail hp' resta F' w _ d' d hresta (by omega)
+              (by rw [hacc']; exact hw) (by omega) hl
+          · exact simD_err heq (foldU_evalF_err cfg htail hp' d d' _ (by rw [hacc']; exact hy))
+        | @cast _ _ o x₁ u _ rest ho hp1 hx1 htail =>
+          obtain ⟨oa, L2, rfl, hoa, hL2⟩ := map_eq_cons hL1
+          obtain ⟨x1a, resta, rfl, hx1a, hresta⟩ := map_eq_cons hL2
+          simp only [sizeList] at hs1 hsz
+          have p1 := C06.size_pos x₁
+          have p2 := C06.size_pos o
+          obtain ⟨F', rfl⟩ : ∃ F', F = F' + 1 := ⟨F - 1, by omega⟩
+          have hlb := foldU_inScope htail hl
+          have hp' : qprioF (.cast e₀ u) = p := hp1.symm
+          rcases step_cast cfg F' ⟨off, .node id .OPERATION ks⟩ (.node x0a) oa x1a resta (unitC u)
+            (evalF cfg e₀) d (hoa ▸ ho) (unit_unitC x1a u (hx1a ▸ hx1) hlb.2)
+            (hbase F' (by omega) (by omega) d) with
+            ⟨w, d', hw, heq⟩ | ⟨y, d', hy, heq⟩
+          · rw [heq]
+            exact fold_sim cfg (F' + 1) ih' htail hp' resta F' w _ d' d hresta (by omega)
+              (by rw [evalF_cast]; exact hw) (by omega) hl
+          · exact simD_err heq (foldU_evalF_err cfg htail hp' d d' _
+              (by rw [evalF_cast]; exact hy))
+      simp only [eval, kind_node, hLeq]
+      exact sim_of_simD cfg F key
+    | @call1 id aid ks aks more nm x f arg hop hnk hnt hak hx =>
+      have hL := at_opKids ⟨off, .node id .FN_CALL ks⟩
+      simp only [kids_node, hop] at hL
+      obtain ⟨nma, L1, hLeq, hnma, hL1⟩ := map_eq_cons hL
+      obtain ⟨arga, morea, rfl, harga, _⟩ := map_eq_cons hL1
+      have hA := at_opKids arga
+      rw [harga] at hA
+      simp only [kids_node, hak] at hA
+      obtain ⟨xa, hAeq, hxa⟩ := map_eq_one hA
+      have hs1 := opKids_size_le ks
+      have hs2 := opKids_size_le aks
+      simp only [hop, hak, sizeList, size_node] at hs1 hs2 hsz
+      have p0 := C06.size_pos nm
+      obtain ⟨F', rfl⟩ : ∃ F', F = F' + 1 := ⟨F - 1, by omega⟩
+      have hr := ih' F' (by omega) x arg xa.off d (by omega) hx hl.1
+      rw [← hxa, at_eta] at hr
+      rw [evalF_call1, eval_fnCall cfg (F' + 1) _ nma arga morea f rfl hLeq (hnma ▸ hnk)
+        (by rw [harga]; rfl) (hnma ▸ hnt), hAeq]
+      simp only [evalArgs, C06.bind_apply]
+      rcases hb1 : eval cfg F' xa d with ⟨ra, d1⟩
+      rcases hb2 : evalF cfg arg d with ⟨ra', d1'⟩
+      rw [hb1, hb2] at hr
+      obtain ⟨hra, hd1⟩ := hr
+      simp only at hra hd1
+      subst hd1
+      cases ra with
+      | error y =>
+        simp only [strip] at hra
+        subst hra
+        exact ⟨rfl, rfl⟩
+      | ok a =>
+        simp only [strip] at hra
+        subst hra
+        simp only [pure]
+        exact sim_builtin cfg f _ _ [a] d1
+    | @call2 id aid ks aks more nm x y f arg n hop hnk hnt hak hx hyk hyc hnp hyt =>
+      have hL := at_opKids ⟨off, .node id .FN_CALL ks⟩
+      simp only [kids_node, hop] at hL
+      obtain ⟨nma, L1, hLeq, hnma, hL1⟩ := map_eq_cons hL
+      obtain ⟨arga, morea, rfl, harga, _⟩ := map_eq_cons hL1
+      have hA := at_opKids arga
+      rw [harga] at hA
+      simp only [kids_node, hak] at hA
+      obtain ⟨xa, A1, hAeq, hxa, hA1⟩ := map_eq_cons hA
+      obtain ⟨ya, hA2, hya⟩ := map_eq_one hA1
+      subst hA2
+      have hs1 := opKids_size_le ks
+      have hs2 := opKids_size_le aks
+      simp only [hop, hak, sizeList, size_node] at hs1 hs2 hsz
+      have p0 := C06.size_pos nm
+      have py := C06.size_pos y
+      obtain ⟨F', rfl⟩ : ∃ F', F = F' + 3 := ⟨F - 3, by omega⟩
+      have hr := ih' (F' + 2) (by omega) x arg xa.off d (by omega) hx hl.1
+      rw [← hxa, at_eta] at hr
+      have hy : ∀ d1, eval cfg (F' + 1) ya d1 = (.ok (plain (value n)), d1) := fun d1 =>
+        eval_number cfg F' ya n d1 (hya ▸ hyk) (hya ▸ hyt) (hl.2 n rfl) hnp
+      rw [evalF_call2, eval_fnCall cfg (F' + 3) _ nma arga morea f rfl hLeq (hnma ▸ hnk)
+        (by rw [harga]; rfl) (hnma ▸ hnt), hAeq]
+      simp only [evalArgs, C06.bind_apply]
+      rcases hb1 : eval cfg (F' + 2) xa d with ⟨ra, d1⟩
+      rcases hb2 : evalF cfg arg d with ⟨ra', d1'⟩
+      rw [hb1, hb2] at hr
+      obtain ⟨hra, hd1⟩ := hr
+      simp only at hra hd1
+      subst hd1
+      cases ra with
+      | error z =>
+        simp only [strip] at hra
+        subst hra
+        exact ⟨rfl, rfl⟩
+      | ok a =>
+        simp only [strip] at hra
+        subst hra
+        simp only [hy, pure]
+        exact sim_builtin cfg f _ _ [a, plain (value n)] d1
+
+/-- **The evaluator on trees that represent an expression of the full language.** -/
+theorem evalStatement : EvalStatement :=
+  fun cfg t e off fuel d h hl hf => evalOKU_all cfg fuel t e off d hf h hl
 
 end Anything.FU
